@@ -205,3 +205,253 @@ func checkReturnFresh(p *load.Program, rule *report.Rule, discover bool) map[str
 	sort.Strings(found)
 	return map[string]any{"exported functions returning byte slices": n, "discovered": found}
 }
+
+// INPUT-retain: an exported function of a public package never keeps a caller's byte slice:
+// no slice deriving from a byte-slice parameter is stored into memory that outlives the call
+// (fields of the receiver / of returned or heap objects, globals, maps), directly or through a
+// callee.  An object that keeps pointing into the caller's buffer changes silently when the
+// caller re-uses the buffer (an expanded key whose cached encoding no longer matches its
+// precomputed tables; a hash computed over bytes of another key).  Decided by
+// emod.SliceRetentions (fixpoint over the call graph).  By-design retentions are listed.
+var inputRetainExceptions = map[string]map[string]string{
+	"(*primitives/ed25519.BatchVerifier).Add":                    {"sig": batchKeepsSig},
+	"(*primitives/ed25519.BatchVerifier).AddWithOptions":         {"sig": batchKeepsSig},
+	"(*primitives/ed25519.BatchVerifier).AddExpanded":            {"sig": batchKeepsSig},
+	"(*primitives/ed25519.BatchVerifier).AddExpandedWithOptions": {"sig": batchKeepsSig},
+	"(*primitives/ed25519/extra/cache.Verifier).Add":             {"sig": batchKeepsSig},
+	"(*primitives/ed25519/extra/cache.Verifier).AddWithOptions":  {"sig": batchKeepsSig},
+}
+
+// batchKeepsSig: entry.signature keeps the signature bytes until Verify (the cofactorless fallback
+// compares them with the recomputed R): the batch API's contract is add-then-verify, the entry is
+// the only holder, and nothing derived from the bytes is cached beside them (R, S are decoded at Add).
+const batchKeepsSig = "the batch entry keeps the signature for the cofactorless comparison in the serial fallback (by design; nothing derived is cached beside it that could disagree with other uses)"
+
+func checkInputRetain(p *load.Program, rule *report.Rule, discover bool) map[string]any {
+	m := modFor(p)
+	ret := m.SliceRetentions()
+	n := 0
+	var found []string
+	for _, fn := range p.ModuleFuncs() {
+		if fn.Pkg == nil || fn.Object() == nil || !fn.Object().Exported() || len(fn.Blocks) == 0 {
+			continue
+		}
+		rel := load.Rel(fn.Pkg.Pkg)
+		if strings.HasPrefix(rel, "internal") || strings.Contains(rel, "/internal") {
+			continue
+		}
+		sig := fn.Signature
+		first := 0
+		if sig.Recv() != nil {
+			first = 1
+			rt := sig.Recv().Type()
+			if pt, ok := rt.(*types.Pointer); ok {
+				rt = pt.Elem()
+			}
+			if nm, ok := rt.(*types.Named); ok && !nm.Obj().Exported() {
+				continue
+			}
+		}
+		name := load.FuncName(fn)
+		for i := first; i < len(fn.Params); i++ {
+			sl, ok := fn.Params[i].Type().Underlying().(*types.Slice)
+			if !ok {
+				continue
+			}
+			if b, ok := sl.Elem().Underlying().(*types.Basic); !ok || b.Kind() != types.Byte {
+				continue
+			}
+			n++
+			pname := paramRecordedName(fn, i)
+			r, bad := ret[fn][i]
+			if !bad {
+				rule.OK(name + "#" + pname)
+				continue
+			}
+			if why := inputRetainExceptions[name][pname]; why != "" {
+				rule.OK(name + "#" + pname)
+				continue
+			}
+			via := ""
+			if r.Via != "" {
+				via = " (through " + r.Via + ")"
+			}
+			if discover {
+				found = append(found, fmt.Sprintf("%s  param %s at %s%s", name, pname, p.Pos(r.Pos), via))
+				continue
+			}
+			rule.Fail(p.Pos(r.Pos), name, fmt.Sprintf("keeps the caller's byte slice %q%s: the object then points into a buffer the caller may re-use or modify; copy the bytes", pname, via), nil)
+		}
+	}
+	sort.Strings(found)
+	return map[string]any{"byte-slice parameters of exported functions": n, "discovered": found}
+}
+
+// RESULT-disjoint: two byte-slice results of one exported function never share storage
+// (a key pair returned as two views of one buffer: writing the public key changes the private
+// key's public half).
+func checkResultDisjoint(p *load.Program, rule *report.Rule, discover bool) map[string]any {
+	m := modFor(p)
+	n := 0
+	var found []string
+	for _, fn := range p.ModuleFuncs() {
+		if fn.Pkg == nil || fn.Object() == nil || !fn.Object().Exported() || len(fn.Blocks) == 0 {
+			continue
+		}
+		rel := load.Rel(fn.Pkg.Pkg)
+		if strings.HasPrefix(rel, "internal") || strings.Contains(rel, "/internal") {
+			continue
+		}
+		k := 0
+		for i := 0; i < fn.Signature.Results().Len(); i++ {
+			if sl, ok := fn.Signature.Results().At(i).Type().Underlying().(*types.Slice); ok {
+				if b, ok := sl.Elem().Underlying().(*types.Basic); ok && b.Kind() == types.Byte {
+					k++
+				}
+			}
+		}
+		if k < 2 {
+			continue
+		}
+		n++
+		name := load.FuncName(fn)
+		ov := m.ResultOverlaps(fn)
+		if len(ov) == 0 {
+			rule.OK(name)
+			continue
+		}
+		if discover {
+			found = append(found, fmt.Sprintf("%s results %d and %d at %s", name, ov[0].A, ov[0].B, p.Pos(ov[0].Pos)))
+			continue
+		}
+		rule.Fail(p.Pos(ov[0].Pos), name, fmt.Sprintf("results %d and %d are views of one allocation that may overlap: a caller writing one silently changes the other; return independent copies", ov[0].A, ov[0].B), nil)
+	}
+	sort.Strings(found)
+	return map[string]any{"exported functions with two byte-slice results": n, "discovered": found}
+}
+
+// ALIAS-slice: a function with an output pointer *T (receiver or parameter it writes) and a
+// slice parameter whose elements are *T or T finishes READING the slice's elements before it
+// first WRITES the output: callers legitimately pass the receiver as one of the inputs
+// (acc.Sum([]*T{acc, x}), inputs[k].BatchInvert(inputs)); a result stored early clobbers an
+// operand the remaining passes still need.  The pairwise rule ALIAS covers fixed pointer
+// parameters; this is its slice form, decided as an ordering fact over the CFG with the
+// may-read / may-write summaries of E-MOD.
+func checkAliasSlice(p *load.Program, rule *report.Rule, discover bool) map[string]any {
+	m := modFor(p)
+	n := 0
+	var found []string
+	for _, fn := range p.ModuleFuncs() {
+		if fn.Pkg == nil || len(fn.Blocks) == 0 || fn.Parent() != nil {
+			continue
+		}
+		sum := m.Sum[fn]
+		if sum == nil {
+			continue
+		}
+		name := load.FuncName(fn)
+		for w, pw := range fn.Params {
+			pt, ok := pw.Type().Underlying().(*types.Pointer)
+			if !ok || !sum.Writes[w] {
+				continue
+			}
+			nm, ok := pt.Elem().(*types.Named)
+			if !ok {
+				continue
+			}
+			for r, pr := range fn.Params {
+				if r == w {
+					continue
+				}
+				sl, ok := pr.Type().Underlying().(*types.Slice)
+				if !ok {
+					continue
+				}
+				et := sl.Elem()
+				if ep, ok := et.Underlying().(*types.Pointer); ok {
+					et = ep.Elem()
+				}
+				if !types.Identical(et, nm) {
+					continue
+				}
+				n++
+				key := name + "#" + paramRecordedName(fn, w) + "/" + paramRecordedName(fn, r)
+				ov, bad := m.ReadAfterWrite(fn, w, r)
+				if !bad {
+					rule.OK(key)
+					continue
+				}
+				if discover {
+					found = append(found, fmt.Sprintf("%s write %s read %s", key, p.Pos(ov.WritePos), p.Pos(ov.ReadPos)))
+					continue
+				}
+				rule.Fail(p.Pos(ov.WritePos), name, fmt.Sprintf("writes its output %q (at %s) and may still read elements of %q afterwards (at %s): when the output is one of the elements the operand is clobbered before its last use; compute into a temporary and store the result last", paramRecordedName(fn, w), p.Pos(ov.WritePos), paramRecordedName(fn, r), p.Pos(ov.ReadPos)), nil)
+			}
+		}
+	}
+	sort.Strings(found)
+	return map[string]any{"(output pointer, element slice) pairs": n, "discovered": found}
+}
+
+// RETURN-global: no exported function or method of a public package hands out a pointer (or
+// slice) into a package-level variable: the caller would hold mutable access to a constant the
+// whole library computes with (the base point, a table, a torsion point) — writing through it
+// silently changes every later result in the process.  Package-level variables that are
+// themselves exported pointers are reachable by callers anyway; what this rule forbids is an
+// API RESULT that aliases library-owned storage.  Decided with the result-root summaries of
+// E-MOD (transitive through callees).  Exceptions are listed with a reason.
+var returnGlobalExceptions = map[string]string{}
+
+func checkReturnGlobal(p *load.Program, rule *report.Rule, discover bool) map[string]any {
+	m := modFor(p)
+	n := 0
+	var found []string
+	for _, fn := range p.ModuleFuncs() {
+		if fn.Pkg == nil || fn.Object() == nil || !fn.Object().Exported() || len(fn.Blocks) == 0 {
+			continue
+		}
+		rel := load.Rel(fn.Pkg.Pkg)
+		if strings.HasPrefix(rel, "internal") || strings.Contains(rel, "/internal") {
+			continue
+		}
+		sig := fn.Signature
+		if sig.Recv() != nil {
+			rt := sig.Recv().Type()
+			if pt, ok := rt.(*types.Pointer); ok {
+				rt = pt.Elem()
+			}
+			if nm, ok := rt.(*types.Named); ok && !nm.Obj().Exported() {
+				continue
+			}
+		}
+		ptrRes := false
+		for i := 0; i < sig.Results().Len(); i++ {
+			switch sig.Results().At(i).Type().Underlying().(type) {
+			case *types.Pointer, *types.Slice:
+				ptrRes = true
+			}
+		}
+		sum := m.Sum[fn]
+		if !ptrRes || sum == nil {
+			continue
+		}
+		n++
+		name := load.FuncName(fn)
+		if len(sum.ReturnsGlobals) == 0 || returnGlobalExceptions[name] != "" {
+			rule.OK(name)
+			continue
+		}
+		var gs []string
+		for g := range sum.ReturnsGlobals {
+			gs = append(gs, g)
+		}
+		sort.Strings(gs)
+		if discover {
+			found = append(found, name+" -> "+strings.Join(gs, ", "))
+			continue
+		}
+		rule.Fail(p.Pos(fn.Pos()), name, "a pointer-like result may point into the package-level variable(s) "+strings.Join(gs, ", ")+": the caller could modify a constant the library computes with; return a copy", nil)
+	}
+	sort.Strings(found)
+	return map[string]any{"exported functions with pointer-like results": n, "discovered": found}
+}
